@@ -40,6 +40,11 @@ func (c *Ctx) ExecTable() map[string]*ExecInfo {
 		if !ok {
 			continue
 		}
+		// a helper object that embeds the executor (the method object an Apply closure was turned into) satisfies the
+		// interface through it: the executor is the type that holds the BaseExecutor itself
+		if prev := out[pkg]; prev != nil && holdsBaseExecutor(prev.Named) && !holdsBaseExecutor(n) {
+			continue
+		}
 		info := &ExecInfo{Pkg: pkg, Named: n, Slots: map[string]*ssa.Function{}}
 		for _, s := range executorSlots {
 			info.Slots[s] = c.P.MethodOf(n, s)
@@ -47,6 +52,23 @@ func (c *Ctx) ExecTable() map[string]*ExecInfo {
 		out[pkg] = info
 	}
 	return out
+}
+
+// holdsBaseExecutor: the struct has a field (embedded or not) of type *policy.BaseExecutor or policy.BaseExecutor.
+func holdsBaseExecutor(n *types.Named) bool {
+	st, ok := n.Underlying().(*types.Struct)
+	if !ok {
+		return false
+	}
+	for i := 0; i < st.NumFields(); i++ {
+		if fn := namedOfPtr(st.Field(i).Type()); fn != nil && fn.Obj().Name() == "BaseExecutor" && fn.Obj().Pkg() != nil && fn.Obj().Pkg().Name() == "policy" {
+			return true
+		}
+		if fn, isN := st.Field(i).Type().(*types.Named); isN && fn.Obj().Name() == "BaseExecutor" {
+			return true
+		}
+	}
+	return false
 }
 
 // namedOfPtr returns the named struct type a term's static type points to.
